@@ -5,7 +5,7 @@ import numpy as np
 
 from .. import common as C
 from .. import gen, impl
-from .c03 import RHO, TAU_REL, exact_follow, fr_mat, sqrt_le
+from .c03 import RHO, TAU_REL, exact_follow, fr_mat, own_norms, sqrt_le
 
 TRUSTED = [
     "Coq 8.16.1 kernel + vm_compute; C04 theorems about sqrt depend on the standard-library real-number axioms "
@@ -16,11 +16,14 @@ TRUSTED = [
 ]
 
 
-def judge(Bq, costs, picks):
-    """returns (ok, exact, zero_pivot_step): follow-mode verdicts of the rule 'maximise sqrt(residual) - cost'"""
+def judge(Bq, costs, picks, f32=False):
+    """returns (ok, exact, zero_pivot_step): follow-mode verdicts of the rule 'maximise sqrt(residual) - cost'.
+    f32: the matrix was handed over in single precision - the slack is widened to that arithmetic (2^-10 relative, 2^-16 absolute)"""
+    RHO, TAU_REL = (F(1, 2 ** 10), F(1, 2 ** 16)) if f32 else (globals()["RHO"], globals()["TAU_REL"])
     diags = exact_follow(Bq, picks)
     scale = max([sum(x * x for x in r) for r in Bq] + [F(0)])
     tau = TAU_REL * (1 + scale) / 2
+    s0 = own_norms(Bq)         # CCQR's residual norms are accurate relative to the sensor's OWN norm (see c03.judge, own=True)
     ranked, ok, exact, zp = set(), True, True, None
     for j, (d, p) in enumerate(zip(diags, picks)):
         if p in ranked:
@@ -28,7 +31,9 @@ def judge(Bq, costs, picks):
         for c in range(len(d)):
             if c in ranked:
                 continue
-            if not sqrt_le((1 - RHO) ** 2 * d[c], costs[c] + tau, d[p], costs[p]):
+            # ... and norm - cost is formed in floating point: what is below 2^-50 of the costs involved is absorbed
+            t_ = min(tau, TAU_REL / 2 * (s0[c] + s0[p])) + F(1, 2 ** 50) * (abs(costs[c]) + abs(costs[p]))
+            if not sqrt_le((1 - RHO) ** 2 * d[c], costs[c] + t_, d[p], costs[p]):
                 ok = False
             if not sqrt_le(d[c], costs[c], d[p], costs[p]):
                 exact = False
@@ -108,14 +113,28 @@ def run(chk):
             costs[i0] = -4.0 * (1.0 + float(np.abs(B).max())) * m
             kind, ck = kind + "+faint", "faint_row_preferred"
             Bq = fr_mat(B)
-        cq = [F(float(c)) for c in costs]
-        case = {"B": B.tolist(), "kind": kind, "costs": costs.tolist(), "cost_kind": ck}
+        if it >= len(corpus) and n >= 2 and rng.random() < 0.12:
+            # prohibitive costs given as huge or infinite numbers next to ordinary ones: such sensors come last, the others are ranked as before
+            costs = costs.copy()
+            import sys as _sys
+            hv = [1e18, 1e25, _sys.float_info.max, np.inf][int(rng.integers(0, 4))]
+            for i_ in rng.choice(n, size=int(rng.integers(1, n)), replace=False):
+                costs[int(i_)] = hv
+            ck = "prohibitive_huge" if np.isfinite(hv) else "prohibitive_inf"
+        f32 = False
+        Bfit = B
+        if it >= len(corpus) and rng.random() < (0.5 if ck == "dependent_row_preferred" else 0.1) and np.array_equal(B.astype(np.float32).astype(float), B):
+            Bfit = B.astype(np.float32)            # the same real matrix in single precision
+            f32 = True
+            kind = kind + "/float32"
+        cq = [F(float(c)) if np.isfinite(c) else F(2) ** 300 for c in costs]
+        case = {"B": B.tolist(), "kind": kind, "costs": [float(c) if np.isfinite(c) else "inf" for c in costs], "cost_kind": ck}
         try:
             user_costs = costs.copy()
             opt = CCQR(sensor_costs=user_costs)
-            piv = [int(i) for i in impl.quiet(opt.fit, B.copy()).get_sensors()]
+            piv = [int(i) for i in impl.quiet(opt.fit, Bfit.copy()).get_sensors()]
             # the same optimizer object (and the user's cost array) used again must give the same ranking
-            piv_again = [int(i) for i in impl.quiet(opt.fit, B.copy()).get_sensors()]
+            piv_again = [int(i) for i in impl.quiet(opt.fit, Bfit.copy()).get_sensors()]
             if piv_again != piv or not np.array_equal(user_costs, costs):
                 chk.violation("impl", "ccqr-second-fit-differs", f"fitting the same CCQR object twice on the same matrix gives {piv} then {piv_again}; "
                               f"cost array modified: {not np.array_equal(user_costs, costs)}", {**case, "observed": [piv, piv_again]})
@@ -144,7 +163,7 @@ def run(chk):
         chk.case(case, nontrivial=picks != qrp[:k])
         chk.count("kind:" + kind)
         chk.count("costs:" + ck)
-        ok, exact, zp, diags = judge(Bq, cq, picks)
+        ok, exact, zp, diags = judge(Bq, cq, picks, f32)
         ctx = {**case, "observed": piv}
         if not ok:
             if zp is not None:
@@ -155,10 +174,10 @@ def run(chk):
         if zp is not None:
             chk.count("zero_residual_pivot_cases")
         # metamorphic: a common shift of the costs, zero costs
-        if exact and zp is None:
+        if exact and zp is None and not f32 and "prohibitive_" not in ck:
             d = float(rng.integers(-16, 17)) / 4.0
             piv2 = [int(i) for i in impl.quiet(CCQR(sensor_costs=costs + d).fit, B.copy()).get_sensors()]
-            ok2, ex2, zp2, _ = judge(Bq, cq, piv2[:k])
+            ok2, ex2, zp2, _ = judge(Bq, [c_ + F(d) for c_ in cq], piv2[:k])       # judged with the costs it was computed with (their size sets the rounding)
             if piv2[:k] != picks and not ok2:
                 chk.violation("impl", "ccqr-shift-changes-ranking", f"adding {d} to every cost changed the ranking from {picks} to {piv2[:k]}", {**ctx, "shift": d, "observed_shifted": piv2})
             chk.count("shift_pairs")
